@@ -175,6 +175,20 @@ var c11Families = []c11Family{
 		state0: func(par int) int64 { return 0 },
 	},
 	{
+		// a pattern that does not compile (a user's typo): the failure path of
+		// whatever the library shares between evaluators for regular expressions
+		name:   "predicate-invalid-regexp",
+		regexp: true,
+		script: func(tag string, par int) string {
+			return fmt.Sprintf("if (match(S, \"(h%s\")) { return false; } return A > %d || match(S, \"^ab$\") || len(replace(S, \"[l%s\", \"x\")) > 9;", tag, par%3, tag)
+		},
+		init: func(e *evalfilter.Eval, par int) {},
+		step: func(s int64, o *Obj, par int) (int64, bool, []int64) {
+			return s, o.A > par%3 || reMatchLines("^ab$", o.S), nil
+		},
+		state0: func(par int) int64 { return 0 },
+	},
+	{
 		// iterates over literals: the iteration position lives in the
 		// (constant-pool) object, so sharing such objects between runs or
 		// between evaluators corrupts the loop
